@@ -228,6 +228,24 @@ func runC29(rec *kit.Recorder, c c29Case) error {
 				return kit.Fail("ranking-differs", "%s: score debugging changes scores", what)
 			}
 		}
+		if c.BM25 {
+			// BM25 sums per-term scores; a sum taken in map order differs in the
+			// last bits from run to run, so repeat until an order dependence had
+			// a fair chance to show
+			reps := 8
+			if os.Getenv("VERIF_REPLAY") != "" {
+				reps = 100
+			}
+			for i := 0; i < reps; i++ {
+				x, err := run(i%2 == 1)
+				if err != nil {
+					return kit.Fail("unstable", "query %s succeeded and then failed: %v", q, err)
+				}
+				if fmt.Sprint(scoreMap(a)) != fmt.Sprint(scoreMap(x)) {
+					return kit.Fail("ranking-differs", "%s: repeated search gives different scores: %v vs %v", what, scoreMap(a), scoreMap(x))
+				}
+			}
+		}
 		exts := map[string]bool{}
 		multi := false
 		for _, f := range a {
@@ -253,7 +271,7 @@ func runC29(rec *kit.Recorder, c c29Case) error {
 
 func TestVerif_C29(t *testing.T) {
 	rec := kit.Open(t, "C29",
-		"C01 corpora (symbols, repository ranks, several file extensions) and query batches (finite boosts in [0.01,100]) with default and BM25 scoring, each query run twice plus once with score debugging, through the directory searcher (file order) and the bare shard searcher; non-trivial = >= 3 files, >= 2 extensions and a file with >= 2 matches; distinct by hash",
+		"C01 corpora (symbols, repository ranks, several file extensions) and query batches (finite boosts in [0.01,100]) with default and BM25 scoring, each query run twice plus once with score debugging (BM25: eight more times, scores compared bit for bit), through the directory searcher (file order) and the bare shard searcher; non-trivial = >= 3 files, >= 2 extensions and a file with >= 2 matches; distinct by hash",
 		"the documented promotion: one file with an extension not among the first two may sit in third place if it scores >= 0.9 x the file it displaced",
 		"order is compared up to ties: every file must have the same scores in both runs and each run must be ordered by score (files with equal scores may swap, which may also change which file the promotion picks)",
 	)
